@@ -71,8 +71,9 @@ def uint_ops(bits, tier="quick"):
     op("inv_mod2k_secret_k_%d" % bits, [("a", T, s), ("k", "u32", "secval:32"), ("r", T, o), ("ok", "u8", "out:1")],
        "let x = a.inv_mod2k(k); *ok = subtle::Choice::from(x.is_some()).unwrap_u8(); *r = x.unwrap_or(%s::ZERO);" % T, tier)
     op("sqrt_%d" % bits, [("a", T, s), ("r", T, o)], "*r = a.sqrt();", tier)
-    op("cmp_vartime_secret_%d" % bits, [("a", T, s), ("b", T, s), ("r", "i8", "out:1")],
-       "*r = a.cmp_vartime(b) as i8;", tier, expect="vartime", note="witness: documented vartime in both operands")
+    if bits > 64:  # a one-limb cmp_vartime compiles to straight-line code: not a witness
+        op("cmp_vartime_secret_%d" % bits, [("a", T, s), ("b", T, s), ("r", "i8", "out:1")],
+           "*r = a.cmp_vartime(b) as i8;", tier, expect="vartime", note="witness: documented vartime in both operands")
 
 
 uint_ops(256)
@@ -105,7 +106,7 @@ op("monty_pow_bounded_public_k_256",
    "let p = MontyParams::new_vartime(Odd::new(*m).unwrap()); let x = MontyForm::new(a, p); *r = x.pow_bounded_exp(e, k).retrieve();", tier="thorough")
 op("monty_inv_public_modulus_256",
    [("a", "U256", "sec:32"), ("m", "U256", "pub:32", [le_words_hex(P256)]), ("r", "U256", "out:32"), ("ok", "u8", "out:1")],
-   "let p = MontyParams::new_vartime(Odd::new(*m).unwrap()); let x: subtle::CtOption<MontyForm<4>> = MontyForm::new(a, p).inv().into(); *ok = x.is_some().unwrap_u8(); *r = x.unwrap_or(MontyForm::zero(p)).retrieve();", tier="thorough")
+   "let p = MontyParams::new_vartime(Odd::new(*m).unwrap()); let x: subtle::CtOption<MontyForm<4>> = MontyForm::from_montgomery(*a, p).inv().into(); *ok = x.is_some().unwrap_u8(); *r = x.unwrap_or(MontyForm::zero(p)).retrieve();", tier="thorough")
 op("monty_div_by_2_public_modulus_256",
    [("a", "U256", "sec:32"), ("m", "U256", "pub:32", [le_words_hex(P256)]), ("r", "U256", "out:32")],
    "let p = MontyParams::new_vartime(Odd::new(*m).unwrap()); *r = MontyForm::new(a, p).div_by_2().retrieve();")
